@@ -120,7 +120,12 @@ def absorb(ctx, rep, label, devs):
         if case.get("kind") == "harness":
             raise vlib.MachineryError("robust harness: %s" % json.dumps(case)[:1500])
         if not case.get("reproduced_alone"):
-            # an outcome that does not reproduce in a fresh worker is not a verdict about ggql
+            if case.get("kind") == "hang":
+                # the bulk run's time bound was missed but the case answers when run alone with a generous bound:
+                # a busy machine, not a hang (a real hang misses any bound)
+                ctx.extra["time_bound_missed_but_answers_alone"] = ctx.extra.get("time_bound_missed_but_answers_alone", 0) + case.get("cases", 1)
+                continue
+            # any other outcome that does not reproduce in a fresh worker is not a verdict about ggql
             raise vlib.MachineryError("outcome not reproduced in a fresh worker: %s" % json.dumps(case)[:1500])
         ctx.violations.append({"from": label, "what": m["what"], "case": case})
     for k, n in (rep.get("known_hits") or {}).items():
@@ -200,6 +205,9 @@ def run(ctx):
             if a.get("kind") == "harness":
                 raise vlib.MachineryError("robust harness: %s" % json.dumps(a)[:1500])
             if not a.get("reproduced"):
+                if a.get("kind") == "hang":
+                    ctx.extra["time_bound_missed_but_answers_alone"] = ctx.extra.get("time_bound_missed_but_answers_alone", 0) + 1
+                    continue
                 raise vlib.MachineryError("outcome not reproduced in a fresh worker: %s on %s" % (site, rec["input"][:300]))
             ctx.violations.append({"from": "record", "what": "%s: the specification prescribes that every entry point returns" % site,
                                    "case": {"lang": rec["lang"], "input": rec["input"], "hex": rec["hex"], "toks": rec["toks"],
